@@ -219,6 +219,32 @@ def r1(ctx, dr, ex, outs, msg):
             dflt = ap(a.defaults[i])
     ctx.ob("C19.R1", "Circuit.send_acks defaults to Direction.OUT", (dflt or "").endswith("Direction.OUT"), sa_def.where,
            f"default direction is {dflt}")
+    # the ack really goes out: Circuit.send_acks reaches self.send on every path (an empty id list may be skipped)
+    sacfg = CFG(sa_def.node)
+    to_ack = msg_param(sa_def)
+    snd = [n_ for c in calls(sa_def.node, into_defs=False) if isinstance(c.func, ast.Attribute)
+           and ap(c.func) in ("self.send", "self.send_reliable") for n_ in cfg_nodes(sacfg, c)]
+    okret = []
+    for r in [x for x in walk(sa_def.node) if isinstance(x, ast.Return)]:
+        fs = facts(r, sa_def.node)
+        if fs and all(ap(e) == to_ack and not pol for e, pol in fs):
+            okret.extend(sacfg.nodes_for(r))
+    reach_sa = sacfg.reachable([sacfg.entry], avoid=lambda n_: n_ in snd or n_ in okret)
+    ctx.ob("C19.R1", "Circuit.send_acks sends the PacketAck on every path", bool(snd) and sacfg.exit not in reach_sa,
+           sa_def.where, "a path returns without sending: reliable packets received in that state are never "
+           "acknowledged and the peer keeps retransmitting them")
+    builds = [c for c in calls(sa_def.node, into_defs=False) if call_attr(c) == "Message" and c.args
+              and isinstance(c.args[0], ast.Constant) and c.args[0].value == "PacketAck"]
+    # one Packets block per given id: Block(..., ID=<element of to_ack>) with the element bound by a loop / comprehension
+    elems = set()
+    for n_ in walk(sa_def.node, into_defs=True):
+        if isinstance(n_, (ast.For, ast.AsyncFor)) and ap(n_.iter) == to_ack and isinstance(n_.target, ast.Name):
+            elems.add(n_.target.id)
+        elif isinstance(n_, ast.comprehension) and ap(n_.iter) == to_ack and isinstance(n_.target, ast.Name):
+            elems.add(n_.target.id)
+    per_id = any(call_attr(c) == "Block" and any(k.arg == "ID" and isinstance(k.value, ast.Name) and k.value.id in elems
+                                                 for k in c.keywords) for c in calls(sa_def.node, into_defs=True))
+    ctx.ob("C19.R1", "Circuit.send_acks builds a PacketAck carrying the given ids", bool(builds) and per_id, sa_def.where)
     # path form: every normally completing path that decoded a (possibly) reliable packet has acked it
     n = 0
     for kind, node, st in outs:
@@ -299,8 +325,24 @@ def r3(ctx, dr, ex, outs, msg):
     tr = repo.fn("Circuit.track_reliable", BCIRC)
     pid = msg_param(tr)
 
+    def note_absent(st):
+        for e, pol in st.env.values():
+            if isinstance(e, ast.Compare) and len(e.ops) == 1 and ap(e.left) == pid and ap(e.comparators[0]):
+                if (isinstance(e.ops[0], ast.In) and not pol) or (isinstance(e.ops[0], ast.NotIn) and pol):
+                    if ap(e.comparators[0]) not in st.data["absent"]:
+                        st.data["absent"].append(ap(e.comparators[0]))
+            elif ap(e) and ap(e).startswith("self.") and not pol and ap(e) not in st.data["absent"]:
+                st.data["absent"].append(ap(e))      # an empty memory cannot contain the id
+
     class TR(Explorer):
+        def branch(self, test, st):
+            outs_ = Explorer.branch(self, test, st)
+            for _, s2 in outs_:
+                note_absent(s2)
+            return outs_
+
         def on_stmt(self, s, st):
+            note_absent(st)
             if isinstance(s, (ast.If, ast.While, ast.For, ast.AsyncFor, ast.With, ast.Try, ast.Return, ast.Raise,
                               ast.Break, ast.Continue)):
                 return None
@@ -323,7 +365,7 @@ def r3(ctx, dr, ex, outs, msg):
                             outs_.append(("fall", None, s2))
                     return outs_
             return [("fall", None, st)]
-    touts = TR().explore(tr.node.body, St(data={"added": []}))
+    touts = TR().explore(tr.node.body, St(data={"added": [], "absent": []}))
     containers: Set[str] = set()
     n_false = n_true = 0
     verdicts = []
@@ -358,6 +400,12 @@ def r3(ctx, dr, ex, outs, msg):
         if t is True:
             n_true += 1
             want = containers or {"self.seen_reliable"}
+            note_absent(st)
+            absent = set(st.data["absent"])
+            ctx.ob("C19.R3", "Circuit.track_reliable reports a packet as new only after not finding its id in the memory",
+                   bool(absent & want), ctx.w(tr, node),
+                   "a True verdict on a path that never established that the id is absent from the dedupe memory "
+                   "(e.g. a shortcut on id ordering): with reordered arrivals a retransmission is dispatched again")
             missing = sorted(c for c in want if c not in st.data["added"])
             ctx.ob("C19.R3", "Circuit.track_reliable remembers every id it reports as new", not missing, ctx.w(tr, node),
                    f"returns True without adding the id to {missing}: the next retransmission is reported as new again")
